@@ -99,7 +99,7 @@ func main() {
 
 func newEngine(prog *ssa.Program, pkg *ssa.Package, solver []string) *Engine {
 	e := &Engine{prog: prog, pkg: pkg, solverBin: solver, params: map[string]int64{},
-		maxDepth: 4000, maxSteps: 20000000, maxConcretize: 64, maxPaths: 200000, maxVisits: 5000, stopOnViol: 20}
+		maxDepth: 4000, maxSteps: 20000000, maxConcretize: 64, maxPaths: 200000, maxVisits: 5000, stopOnViol: 20, maxSamples: 4}
 	if err := e.setupTypes(); err != nil {
 		fmt.Fprintln(os.Stderr, err)
 		os.Exit(2)
